@@ -1,5 +1,67 @@
-/- C09 extension (Gcd family): theorems model = specification. -/
+/-
+C09 extension (Gcd family): the value-level models of Model/NtGcd.lean (which mirror the loops of src/bn/relic_bn_gcd.c,
+relic_bn_lcm.c, relic_bn_inv.c and are executed by the driver against the library on every presented line, cofactors included)
+return the mathematically defined values for ALL integers.
+-/
+import RelicVerif.Lemmas.NtGcdC
 
 namespace Relic.Props.C09
+open Relic.Model.NtGcd Relic.Lemmas.NtGcd
+
+/-- bn_gcd_basic (= bn_gcd in the verified configuration): Euclid's loop returns gcd(a, b) ≥ 0 for all integers incl. zero / negative -/
+theorem gcd_basic_exact (a b : Int) : gcdBasic a b = (Int.gcd a b : Int) := gcdBasic_eq a b
+
+/-- bn_gcd_binar (Stein): common power of two, halving loops, subtract-and-halve: = gcd(a, b) for all integers -/
+theorem gcd_binar_exact (a b : Int) : gcdBinar a b = (Int.gcd a b : Int) := gcdBinar_eq a b
+
+/-- bn_gcd_dig: the second operand is one digit (any natural number here); the non-negative remainder, then the digit loop -/
+theorem gcd_dig_exact (a : Int) (b : Nat) : gcdDig a b = (Int.gcd a b : Int) := gcdDig_eq a b
+
+/-- bn_gcd_ext_basic with bn_gcd_ext_sign: (c, d, e) with c = gcd(a, b) ≥ 0 and a·d + b·e = c for ALL integers a, b -/
+theorem gcd_ext_basic_exact (a b : Int) :
+    (gcdExtBasic a b).1 = (Int.gcd a b : Int) ∧
+    a * (gcdExtBasic a b).2.1 + b * (gcdExtBasic a b).2.2 = (gcdExtBasic a b).1 := gcdExtBasic_spec a b
+
+/-- the first cofactor of bn_gcd_ext_basic is small: 2·|d| ≤ |b| (this is what makes bn_mod_inv's single correction enough) -/
+theorem gcd_ext_basic_cofactor_bound (a b : Int) (ha : a ≠ 0) (hb : b ≠ 0) :
+    -(b.natAbs : Int) ≤ 2 * (gcdExtBasic a b).2.1 ∧ 2 * (gcdExtBasic a b).2.1 ≤ (b.natAbs : Int) := gcdExtBasic_dbound a b ha hb
+
+/-- bn_gcd_ext_dig: one multi-precision division step, then the single-digit loop: gcd and Bezout identity -/
+theorem gcd_ext_dig_exact (a : Int) (b : Nat) :
+    (gcdExtDig a b).1 = (Int.gcd a b : Int) ∧
+    a * (gcdExtDig a b).2.1 + (b : Int) * (gcdExtDig a b).2.2 = (gcdExtDig a b).1 := gcdExtDig_spec a b
+
+/-
+Full statement for bn_gcd_ext_binar:  ∀ a b, ∃ c d e, gcdExtBinar a b = some (c, d, e) ∧ c = gcd(a, b) ∧ a·d + b·e = c.
+Proved below without the existence part: the strip loop and the main loop are total with the supplied fuel and keep
+u = A·x + B·y, v = C·x + D·y (HAC 14.61 parity argument), but termination of the final cofactor-reduction loop
+("Now fix reciprocals", added in /repo by the fix 6f5c4fa) within the model's fuel is NOT proved — it is observed on every
+presented line (a fuel-exhausted model prints `model-fuel-exhausted`, which no library output equals).
+-/
+/-- bn_gcd_ext_binar: whenever the model returns, c = gcd(a, b) ≥ 0 and a·d + b·e = c, for all integers -/
+theorem gcd_ext_binar_exact_partial (a b c d e : Int) (h : gcdExtBinar a b = some (c, d, e)) :
+    c = (Int.gcd a b : Int) ∧ a * d + b * e = c := gcdExtBinar_spec a b c d e h
+
+/-- bn_lcm: |a·b| / gcd(a, b) computed as (larger operand)·(smaller / gcd); lcm(0, 0) is refused (division by zero) -/
+theorem lcm_exact (a b : Int) (h : ¬(a = 0 ∧ b = 0)) : lcm a b = some (Int.lcm a b : Int) := lcm_eq a b h
+
+theorem lcm_zero_zero_refused : lcm 0 0 = none := Relic.Lemmas.NtGcd.lcm_zero_zero
+
+/-- bn_mod_inv: for every modulus b > 1 and every integer a: an error exactly when gcd(a, b) ≠ 1, otherwise THE inverse in [0, b) -/
+theorem mod_inv_exact (a b : Int) (hb : 1 < b) :
+    (∀ c, modInv a b = some c → 0 ≤ c ∧ c < b ∧ (a * c) % b = 1) ∧ (modInv a b = none ↔ Int.gcd a b ≠ 1) :=
+  modInv_spec a b hb
+
+/-- bn_mod_inv_sim (Montgomery's trick: prefix products, one inversion, backward pass): every output is the reduced inverse
+of the corresponding input -/
+theorem mod_inv_sim_exact (as : List Int) (b : Int) (hb : 1 < b) (l : List Int) (h : modInvSim as b = some l) :
+    List.Forall₂ (fun x y => (x * y) % b = 1 ∧ 0 ≤ y ∧ y < b) as l := modInvSim_spec as b hb l h
+
+/-- non-vacuity: the models run (exact cofactors as the library prints them) -/
+example : gcdExtBasic (-12) 18 = (6, 1, 1) := by decide
+example : gcdExtBinar 12 (-18) = some (6, -1, -1) := by decide
+example : gcdBinar 48 (-36) = 12 := by decide
+example : modInv 3 7 = some 5 := by decide
+example : modInvSim [3, 5, 6] 7 = some [5, 3, 6] := by decide
 
 end Relic.Props.C09
